@@ -191,9 +191,8 @@ fn check_6_points_2_contours(style: PathStyle) {
 }
 
 // @bound exactly 6 points, two contour entries with symbolic end points, symbolic coordinates and flags; unwind 8
-// @tier thorough
-// @timeout 3600
-// @mem 30
+// @timeout 420
+// @mem 16
 #[cfg_attr(kani, kani::proof)]
 #[cfg_attr(kani, kani::unwind(8))]
 pub fn c12_to_path_well_formed_6_points_freetype_style() {
@@ -201,9 +200,8 @@ pub fn c12_to_path_well_formed_6_points_freetype_style() {
 }
 
 // @bound exactly 6 points, two contour entries with symbolic end points, symbolic coordinates and flags; unwind 8
-// @tier thorough
-// @timeout 3600
-// @mem 30
+// @timeout 420
+// @mem 16
 #[cfg_attr(kani, kani::proof)]
 #[cfg_attr(kani, kani::unwind(8))]
 pub fn c12_to_path_well_formed_6_points_harfbuzz_style() {
